@@ -15,6 +15,9 @@ func (g *Gen) genProtoHistory() {
 	g.beginHist("C09")
 	sg.sh.Exec(fmt.Sprintf("#hist %d", g.hist))
 	sg.pickMapping()
+	if sg.span > 1<<9 {
+		sg.span = 1 << 9 // dense stores put every bin of the window on the wire
+	}
 	sg.line("K 1 1 %s", sg.storeSpec(allKinds))
 	sg.fillSketch(1, r.Range(0, 40), 55)
 	if r.Bool(20) {
